@@ -88,9 +88,28 @@ MulAll(acc, fs) ==
   IF fs = <<>> THEN acc
   ELSE MulAll(IF Head(fs) <= 100000 THEN BnMulSmall(acc, Head(fs)) ELSE BnMul(acc, BnFromNat(Head(fs))), Tail(fs))
 
-LBig(i, G) == MulAll(<<1>>, ReadFactors(i, G))                               \* likelihood numerator
+(* A long locus: an instance may carry `tile` = T > 1, meaning that its N SNV columns (of the   *)
+(* haplotypes and of every read) are repeated T times, N T SNVs in all.  A haplotype's product  *)
+(* over the columns is then the T-th power of its product over the N columns, so the per-read   *)
+(* numerator is sum_h HapProd_h^T over P * 24^(N T): far outside machine integers, and with     *)
+(* mismatches at dozens of SNVs far below the smallest factors a short locus produces.          *)
+Tile(i) == IF "tile" \in DOMAIN i THEN i.tile ELSE 1
+RECURSIVE BnPowBig(_, _)
+BnPowBig(x, n) == IF n = 0 THEN <<1>> ELSE BnMul(BnPowBig(x, n - 1), x)
+BnPowSmall(x, n) == BnPowBig(BnFromNat(x), n)
+RECURSIVE SumHapsT(_, _, _, _, _)
+SumHapsT(cells, H, G, h, T) ==
+  IF h = 0 THEN <<>> ELSE BnAdd(BnPowSmall(ProdCells(cells, H[G[h] + 1], Len(cells)), T), SumHapsT(cells, H, G, h - 1, T))
+RECURSIVE LBigTFrom(_, _, _)
+LBigTFrom(i, G, r) ==
+  IF r = 0 THEN <<1>>
+  ELSE BnMul(LBigTFrom(i, G, r - 1), BnPowBig(SumHapsT(i.reads[r].cells, i.H, G, Len(G), Tile(i)), i.reads[r].cnt))
+
 WFactors(i, G) == <<Perms(G)>> \o UrnFactors(i, G)                           \* prior weight W(G), G sorted
-JBig(i, G) == MulAll(<<1>>, WFactors(i, G) \o ReadFactors(i, G))             \* joint numerator
+LBig(i, G) == IF Tile(i) = 1 THEN MulAll(<<1>>, ReadFactors(i, G))           \* likelihood numerator
+              ELSE LBigTFrom(i, G, Len(i.reads))
+JBig(i, G) == IF Tile(i) = 1 THEN MulAll(<<1>>, WFactors(i, G) \o ReadFactors(i, G))             \* joint numerator
+              ELSE BnMul(MulAll(<<1>>, WFactors(i, G)), LBig(i, G))
 
 (* ---- declarative genotype space ------------------------------------------ *)
 AllSorted(P, K) == {v \in [1..P -> 0..(K - 1)] : IsSorted(v)}
